@@ -136,6 +136,10 @@ func classifyRecv(flags uint64, err error, out json.RawMessage) recvObs {
 		return recvObs{kind: "std-p", name: e.Parameter}
 	case *varlink.Error:
 		o := recvObs{kind: "remote", name: e.Name}
+		if e.Error() != e.Name {
+			// Error() is documented to be the fully-qualified error name: whoever logs or relays it gets another one
+			o.kind = "remote-error-string-is-not-the-name"
+		}
 		if rm, ok := e.Parameters.(*json.RawMessage); ok && rm != nil {
 			o.params = string(*rm)
 		}
